@@ -8,7 +8,7 @@ Driver for property C19: `kitdrv C19` reads one request per line, answers one li
   a real execution are run through the τ-closed state-set simulation (`Kit.Spiffe.accept`).
   Events: `cr` `cy` `cg` `cgp` `cr2` `park:i` `rel:i` `cx:i` `req:k` `rep:0|1`
   `ret:i:ok|ctx|e|s<k>` `rret:err` `q:i+j+…`.  Answer: `accept` or `reject k=<index> ev=<event> …`.
-* `renew dir=0|1 anch=<n> t0=<ns> script=<o:nb:na|f|a:nb:na>,… steps=<a:ns|t:n|w|ans>,…` — runs the renewal
+* `renew dir=0|1 anch=<n> t0=<ns> script=<o:nb:na|f|f:<cd>:<tag>|a:nb:na>,… steps=<a:ns|t:n|w|ans>,…` — runs the renewal
   automaton; answer: requests, served token after each step, armed timers, published file sets.
 -/
 namespace Driver.C19
@@ -67,7 +67,14 @@ def doLts (l : Line) : String :=
 
 def parseReply (w : String) : Option Reply :=
   match w.splitOn ":" with
-  | ["f"] => some .fail
+  | ["f"] => some (.fail {})
+  | ["f", cd, tag] =>   -- error kind: <errors.Is Canceled><errors.Is DeadlineExceeded>:<tag>
+    match cd, tag.toNat? with
+    | "00", some t => some (.fail ⟨false, false, t⟩)
+    | "10", some t => some (.fail ⟨true, false, t⟩)
+    | "01", some t => some (.fail ⟨false, true, t⟩)
+    | "11", some t => some (.fail ⟨true, true, t⟩)
+    | _, _ => none
   | ["o", a, b] => match a.toInt?, b.toInt? with | some a, some b => some (.ok a b) | _, _ => none
   | ["a", a, b] => match a.toInt?, b.toInt? with | some a, some b => some (.okAnchorsFail a b) | _, _ => none
   | _ => none
